@@ -11,7 +11,7 @@ RULE = ('Hypothesis draws cors_allowed_origins {None, *, string, list, predicate
         'cors_credentials x Host / scheme / X-Forwarded-Proto / X-Forwarded-Host (single values and '
         'comma lists) x Origin {absent, empty, same-origin, forwarded origin, a listed origin, '
         'near-misses of each allowed origin (prefix, suffix, case, port, scheme, trailing slash, '
-        'sub-domain), foreign} x request kind {open, poll, post, OPTIONS, upgrade of a session, '
+        'sub-domain), mixtures of the direct scheme / host with the forwarded host / scheme, foreign} x request kind {open, poll, post, OPTIONS, upgrade of a session, '
         'WebSocket open} x server. Each case runs on a fresh world holding one live session with a '
         'queued tagged message. Oracle: reference allow-set from the statement (exact string '
         'match); not allowed => 400 / WebSocket never accepted, no event, no new session, queue '
@@ -108,8 +108,20 @@ def case_st(draw):
     ref = ref_allowed(case)
     bases = sorted(ref[1]) if ref[0] == 'set' else ['http://x.ok.example'] if ref[0] == 'pred' \
         else ['http://anything.example']
-    choice = draw(st.sampled_from(['absent', 'empty', 'allowed', 'allowed', 'near', 'near', 'near',
-                                   'foreign']))
+    choices = ['absent', 'empty', 'allowed', 'allowed', 'near', 'near', 'near', 'foreign']
+    if cors == 'none' and ('xfp' in case or 'xfh' in case):
+        choices += ['mixed', 'mixed', 'mixed']
+    choice = draw(st.sampled_from(choices))
+    if choice == 'mixed':
+        # the direct scheme with the forwarded host, or the forwarded scheme with the direct host:
+        # neither the request's own origin nor the origin seen through the proxy
+        proto = (case.get('xfp') or case['scheme']).split(',')[0].strip()
+        fhost = (case.get('xfh') or case['host']).split(',')[0].strip()
+        case['origin'] = draw(st.sampled_from(['%s://%s' % (case['scheme'], fhost),
+                                               '%s://%s' % (proto, case['host']),
+                                               '%s://%s' % (proto.lower(), fhost)]))
+        case['near'] = 'mixed-direct-and-forwarded'
+        return case
     if choice == 'absent':
         case['origin'] = None
     elif choice == 'empty':
